@@ -72,8 +72,9 @@ def gen_op(rng, w, chosen_price_stream):
         op = {"op": "add_by_tick", "lower": lo, "upper": up, "base": b, "quote": q, "sqrt": None, "tick": None, "trim": True}
         cls = f"{cb}/{cq}"
         if chosen_price_stream and rng.random() < 0.5:
-            op["tick"] = w.tick + rng.choice((-1, 1)) * rng.randint(100, 3000)
-            cls += ":chosen-tick"
+            # any integer in the tick range is a tick, the small ones (-1, 0, 1) included
+            op["tick"] = w.tick + rng.choice((-1, 1)) * rng.randint(100, 3000) if rng.random() < 0.7 else rng.choice((-1, 0, 1, -2, 2))
+            cls += ":chosen-tick" + (":unit" if abs(op["tick"]) <= 2 else "")
         return op, cls
     k = rng.choice(keys)
     held = int(m.positions[k].liquidity)
